@@ -306,6 +306,13 @@ class NodeExecution:
     wait_for_versions: dict[str, int] = field(default_factory=dict)
 
 
+def _is_emit_sentinel(value: Any) -> bool:
+    """True if value is the shared emit sentinel (imported lazily to avoid a cycle)."""
+    from hypergraph.nodes.base import _EMIT_SENTINEL
+
+    return value is _EMIT_SENTINEL
+
+
 @dataclass
 class GraphState:
     """Internal runtime state during graph execution.
@@ -337,7 +344,10 @@ class GraphState:
         self.values[name] = value
 
         # Only increment version if value actually changed
-        if is_new:
+        if is_new or _is_emit_sentinel(value):
+            # An emit signal carries no data: every emission is a new event, so
+            # it always advances the version (the sentinel object itself never
+            # changes, which would otherwise hide all emissions after the first).
             self.versions[name] = self.versions.get(name, 0) + 1
         else:
             # Defensive comparison for types like numpy arrays
